@@ -264,6 +264,25 @@ class Evaluator:
             raise _Continue()
         elif isinstance(st, ast.Pass):
             pass
+        elif isinstance(st, ast.Try):
+            try:
+                try:
+                    self.block(st.body, env, f, depth)
+                except Raised as r:
+                    for h in st.handlers:
+                        names = [] if h.type is None else [ast.unparse(x) for x in (h.type.elts if isinstance(h.type, ast.Tuple) else [h.type])]
+                        if h.type is None or "Exception" in names or "BaseException" in names or r.exc.split(".")[-1] in [n.split(".")[-1] for n in names]:
+                            if h.name:
+                                env[h.name] = Opaque("exception " + r.exc)
+                            self.block(h.body, env, f, depth)
+                            break
+                    else:
+                        raise
+                else:
+                    self.block(st.orelse, env, f, depth)
+            finally:
+                if st.finalbody:
+                    self.block(st.finalbody, env, f, depth)
         elif isinstance(st, ast.With):
             for it in st.items:
                 v = self.expr(it.context_expr, env, f, depth)
@@ -554,7 +573,10 @@ class Evaluator:
                     return str if isinstance(a, (Distinct, Cat)) else Opaque("type")
                 return type(a)
             if fn.id in ("int", "float", "bool") and len(args) == 1 and isinstance(args[0], (int, float, bool, str)):
-                return {"int": int, "float": float, "bool": bool}[fn.id](args[0])
+                try:
+                    return {"int": int, "float": float, "bool": bool}[fn.id](args[0])
+                except ValueError:
+                    raise Raised("ValueError")
             if fn.id in ("int", "str", "float"):
                 return {"int": int, "str": str, "float": float}[fn.id] if not args else Opaque(fn.id)
             if fn.id == "isinstance":
